@@ -473,6 +473,29 @@ def cases(seed, tier, shard, nshards):
         yield gen_sig(common.rng_for(seed, PROP, i, 'sig'))
     for i in common.sharded(b['n_lit'], shard, nshards):
         yield gen_literal(common.rng_for(seed, PROP, i, 'lit'))
+    for i in common.sharded(b['n_sig'] // 8, shard, nshards):
+        yield gen_rawlist(common.rng_for(seed, PROP, i, 'rawlist'))
+
+
+def gen_rawlist(r):
+    """a list argument read with the reader package authors call themselves (TeX.readArgument(type='list'), tokens not expanded
+    beforehand): items protected by braces, with further brace groups inside them"""
+    delim = r.choice([',', ',', ';', '|'])
+    items, exp = [], []
+    for _ in range(r.randint(1, 5)):
+        k = r.random()
+        w = [r.choice(WORDS) for _ in range(4)]
+        if k < 0.35:
+            items.append(w[0]); exp.append(w[0])
+        elif k < 0.55:
+            items.append('{%s%s%s}' % (w[0], delim, w[1])); exp.append(w[0] + delim + w[1])
+        elif k < 0.8:
+            # a further group inside the protected item, and the delimiter after it
+            items.append('{%s{%s%s%s}%s%s%s}' % (w[0], w[1], delim, w[2], w[3], delim, w[0])); exp.append(w[0] + w[1] + delim + w[2] + w[3] + delim + w[0])
+        else:
+            items.append('{%s{%s}%s%s{{%s}}}' % (w[0], w[1], delim, w[2], w[3])); exp.append(w[0] + w[1] + delim + w[2] + w[3])
+    spec = r.choice(['{}', '{}', '[]'])
+    return {'kind': 'rawlist', 'delim': delim, 'text': spec[0] + (delim + r.choice(['', ' '])).join(items) + spec[1], 'spec': spec, 'expect': exp, 'tail': r.choice(['x', ' x', '{a}', '\\relax '])}
 
 
 # ---------------------------------------------------------------------------
@@ -528,11 +551,38 @@ def run(case, st):
     try:
         if case['kind'] == 'sig':
             return run_sig(case, st)
+        if case['kind'] == 'rawlist':
+            return run_rawlist(case, st)
         return run_lit(case, st)
     finally:
         balance_check(st, case, case.get('sig') or case.get('text'))
         if _snap is not None:
             _snap.restore()
+
+
+def run_rawlist(case, st):
+    from plasTeX.TeX import TeX
+    tex = TeX()
+    tex.input(case['text'] + case['tail'])
+    st.feature('raw-list', '%s %s' % (case['spec'], case['delim']))
+    try:
+        v = tex.readArgument(spec=None if case['spec'] == '{}' else case['spec'], type='list', delim=case['delim'])
+        rem = remainder(tex)
+    except common.CaseTimeout:
+        raise
+    except Exception as e:
+        st.violation('raw-list/raises-' + type(e).__name__, case, 'reading %r raised %s' % (case['text'], traceback.format_exc()[-400:]))
+        return {'nontrivial': True}
+    st.counters['raw_lists_read'] += 1
+    got = [re.sub(r'\s', '', x.textContent if hasattr(x, 'textContent') else str(x)) for x in (v or [])]
+    want = [re.sub(r'\s', '', x) for x in case['expect']]
+    if got != want:
+        st.violation('raw-list/items', case, 'list argument %r (delimiter %r): items %r, written %r' % (case['text'], case['delim'], got, want))
+        return {'nontrivial': True}
+    exp_rem = expected_remainder('a' + case['tail'])[1:]          # (tokenized as it stands in mid-line, after the closing delimiter)
+    if rem != exp_rem:
+        st.violation('raw-list/remainder', case, 'list argument %r leaves %r unread, expected %r' % (case['text'], rem, exp_rem))
+    return {'nontrivial': any('{' in x[1:] for x in case['text'].split(case['delim'])), 'sample': {'text': case['text']}}
 
 
 def run_lit(case, st):
